@@ -302,11 +302,11 @@ func (m *histModel) traversalInfo(fn *ssa.Function) *travInfo {
 		}
 		if same {
 			ti.pass[i] = m.p.TermOf(site.Args[i])
-		} else if ti.posIdx < 0 {
+		} else if ti.posIdx < 0 && (namedIs(f.Params[i].Type(), pkgHistory, "position") || namedIs(f.Params[i].Type(), pkgHyper, "position")) {
 			ti.posIdx = i
-		} else {
-			return nil // more than one parameter changes in the recursion: not the traversal shape
 		}
+		// other parameters that change in the recursion (a target list, a flag) stay symbolic, as
+		// the extra parameters of the closure form do
 	}
 	if ti.posIdx < 0 {
 		return nil
